@@ -180,6 +180,11 @@ def run(ctx):
     check_frame_attrs(ctx, 'C01', 'R5')
     P = ctx.prog
     check_decoder(ctx)
+    # the pipe that carries the outcome of the process kinds carries the start-up report first: whatever is left in it is unpacked as the final message
+    from .c20 import startup_report_sites, check_startup_report_consumed
+    for cls0, f0, g0, c0, pipe0 in startup_report_sites(ctx):
+        ctx.used(f0)
+        check_startup_report_consumed(ctx, 'R3', cls0, f0, g0, c0, pipe0)
     classes = worker_classes(P, internal=True)
     seen_funcs = set()
     for cls in classes:
